@@ -19,8 +19,18 @@ class LogmStub:
     impl = None
 
     def __call__(self, m):
+        a = snp._to_obj(m)
+        if all(x.is_const() for x in a.flat):
+            # concrete argument: the real scipy function (assumption A4: trusted dependency)
+            import scipy.linalg as _sl
+            r = _sl.logm(_real_numpy.array([[float(x.const()) for x in row] for row in a]))
+            if _real_numpy.iscomplexobj(r):
+                if abs(r.imag).max() > 1e-12:
+                    raise sc.Unsupported('scipy.linalg.logm returned a complex matrix')
+                r = r.real
+            return snp.array(r)
         if LogmStub.impl is None:
-            raise sc.Unsupported('scipy.linalg.logm has no model in this contract (assumption A4)')
+            raise sc.Unsupported('scipy.linalg.logm on a symbolic matrix has no model in this contract (assumption A4)')
         return LogmStub.impl(m)
 
 
